@@ -81,6 +81,7 @@ fn cmd_sim(args: &[String]) -> i32 {
             deadline: None,
             audit_every: 200,
             collect_journals: false,
+                check_livelock: false,
         },
     );
     println!(
